@@ -335,4 +335,9 @@ for _k in ('C04', 'C11'):
     if 'Panic' not in PROPS[_k]['primary']:
         PROPS[_k]['primary'] = PROPS[_k]['primary'] + ['Panic']
 
+# very long paths (length limits / truncation in Router::search): a handful of cheap cases
+for _k in ('C01', 'C02', 'C07'):
+    if not any(sc[0] == 'longpath' for sc in PROPS[_k]['scenarios']):
+        PROPS[_k]['scenarios'] = PROPS[_k]['scenarios'] + [('longpath', 2, 48)]
+
 NOT_APPLICABLE = {}
